@@ -1001,3 +1001,133 @@ pub fn run_diff_check(tier: &str, seed: u64, stats: &Stats) -> CheckOutcome {
         }
     }
 }
+
+// ------------------------------------------------------------------------------------------
+// E5: entry points of the coverage-guided fuzz targets (/verif/fuzz)
+// ------------------------------------------------------------------------------------------
+
+fn fuzz_only() -> &'static str {
+    static ONLY: std::sync::OnceLock<String> = std::sync::OnceLock::new();
+    ONLY.get_or_init(|| std::env::var("VERIF_ONLY").unwrap_or_default())
+}
+
+/// One libFuzzer iteration of the lock-step engine: decode, run, panic with `ORACLE <id> ...` if a
+/// predicate speaking for VERIF_ONLY (or for any property if unset) fails. All state the engine
+/// touches (virtual clock, yield hooks) is thread-local and reset around the run.
+pub fn fuzz_lockstep(data: &[u8]) {
+    let case = crate::fuzzdec::decode_case(data);
+    stretto::verif::set_thread_yield_hook(None);
+    stretto::verif::set_thread_yield_hook2(None);
+    let rep = run_case(&case, false);
+    crate::clock::set_thread(None);
+    stretto::verif::set_thread_yield_hook(None);
+    stretto::verif::set_thread_yield_hook2(None);
+    if let Ok(rep) = rep {
+        let only = fuzz_only();
+        if let Some(f) = rep.failures.iter().find(|f| only.is_empty() || f.is_for(only)) {
+            panic!("ORACLE {} [{}] step {}: {}", f.props.join(","), f.pred, f.step, f.msg);
+        }
+    }
+}
+
+pub fn fuzz_estimators(data: &[u8]) {
+    let c = crate::fuzzdec::decode_est(data);
+    let (prop, r) = crate::fuzzdec::run_est(&c);
+    crate::clock::set_thread(None);
+    let only = fuzz_only();
+    if let Err(m) = r {
+        if only.is_empty() || only == prop {
+            panic!("ORACLE {} {}", prop, m);
+        }
+    }
+}
+
+/// replay of a raw libFuzzer artifact through the ordinary (strict) path
+pub fn replay_fuzz_artifact(prop: &str, target: &str, data: &[u8]) -> (Vec<String>, Vec<String>) {
+    match target {
+        "estimators" => {
+            let c = crate::fuzzdec::decode_est(data);
+            let (p, r) = crate::fuzzdec::run_est(&c);
+            match r {
+                Err(m) if p == prop => (vec![m], vec![]),
+                _ => (vec![], vec![]),
+            }
+        }
+        _ => {
+            let case = crate::fuzzdec::decode_case(data);
+            let mut trace = vec![format!("decoded case: {}", serde_json::to_string(&case).unwrap_or_default())];
+            let (f, t) = replay_ls(prop, &case);
+            trace.extend(t);
+            (f, trace)
+        }
+    }
+}
+
+pub struct FuzzOutcome {
+    pub execs: u64,
+    pub violation: Option<(String, String)>,
+    pub note: String,
+}
+
+/// Drive `cargo +nightly fuzz run <target>` for `secs` seconds with VERIF_ONLY=<prop>.
+pub fn run_fuzz_campaign(prop: &str, target: &str, secs: u64, seed: u64) -> FuzzOutcome {
+    let vd = verif_dir();
+    let fuzz_dir = vd.join("fuzz");
+    let corpus = vd.join("target").join("fuzz-corpus").join(format!("{}-{}", target, prop));
+    let _ = std::fs::remove_dir_all(&corpus);
+    let _ = std::fs::create_dir_all(&corpus);
+    let art = vd.join("replays");
+    let _ = std::fs::create_dir_all(&art);
+    let prefix = format!("{}/fuzz-{}-{}-", art.display(), target, prop);
+    let out = std::process::Command::new("cargo")
+        .current_dir(&fuzz_dir)
+        .env("RUSTFLAGS", "--cfg transparencies_stretto_verif -Aunexpected_cfgs -Amismatched_lifetime_syntaxes")
+        .env("CARGO_TARGET_DIR", vd.join("target").join("fuzz-target"))
+        .env("VERIF_ONLY", prop)
+        .env("CARGO_NET_OFFLINE", "true")
+        .args(["+nightly", "fuzz", "run", "--fuzz-dir", ".", target, corpus.to_str().unwrap(), "--"])
+        .arg(format!("-max_total_time={}", secs))
+        .arg(format!("-seed={}", (seed % 4_000_000_000) + 1))
+        .arg("-len_control=0")
+        .arg("-max_len=700")
+        .arg("-print_final_stats=1")
+        .arg(format!("-artifact_prefix={}", prefix))
+        .output();
+    let out = match out {
+        Ok(o) => o,
+        Err(e) => return FuzzOutcome { execs: 0, violation: None, note: format!("cargo fuzz could not be started: {}", e) },
+    };
+    let text = format!("{}\n{}", String::from_utf8_lossy(&out.stdout), String::from_utf8_lossy(&out.stderr));
+    let execs = text
+        .lines()
+        .find_map(|l| l.strip_prefix("stat::number_of_executed_units:").map(|r| r.trim().parse::<u64>().unwrap_or(0)))
+        .unwrap_or(0);
+    if out.status.success() {
+        return FuzzOutcome { execs, violation: None, note: format!("libFuzzer {} for {}s: {} executions, no crash", target, secs, execs) };
+    }
+    // a crash: find the artifact, confirm it through the strict replay path
+    let artifact = text.lines().find_map(|l| l.find("Test unit written to ").map(|i| l[i + "Test unit written to ".len()..].trim().to_string()));
+    match artifact {
+        Some(path) => {
+            let data = std::fs::read(&path).unwrap_or_default();
+            let (fails, _) = replay_fuzz_artifact(prop, target, &data);
+            if fails.is_empty() {
+                FuzzOutcome { execs, violation: None, note: format!("libFuzzer reported a crash ({}) that does not reproduce as a violation of {} through the strict replay path: ignored", path, prop) }
+            } else {
+                FuzzOutcome { execs, violation: Some((fails.join("; "), path)), note: String::new() }
+            }
+        }
+        None => {
+            let tail: Vec<&str> = text.lines().rev().take(12).collect();
+            FuzzOutcome { execs, violation: None, note: format!("cargo fuzz failed without an artifact (build problem?): {}", tail.into_iter().rev().collect::<Vec<_>>().join(" | ")) }
+        }
+    }
+}
+
+pub fn fuzz_target_for(id: &str) -> Option<&'static str> {
+    match id {
+        "C01" | "C02" | "C03" | "C04" | "C05" | "C06" | "C08" | "C09" | "C11" | "C15" | "C16" | "C17" | "C18" => Some("lockstep"),
+        "C07" | "C13" | "C14" => Some("estimators"),
+        _ => None,
+    }
+}
